@@ -472,3 +472,46 @@ def blocks_assigning_return(body, pred):
                 if pred(st["rv"]):
                     out.append(b.idx)
     return out
+
+
+# ----------------------------------------------------------------------------- match tables
+def discr_switches(body, prov, pred):
+    """Switch blocks whose discriminant is discriminant(X) with pred(term of X)."""
+    out = []
+    for b in body.live_blocks():
+        t = b.term
+        if t and t["k"] == "switch":
+            term = prov.operand(t["discr"])
+            if term[0] == "discr" and pred(term[1]):
+                out.append((b, term[1]))
+    return out
+
+
+def enum_variants(facts, adt_path):
+    t = facts.adts.get(adt_path)
+    if t is None:
+        for ty in facts.types:
+            if ty.get("k") == "adt" and ty.get("path") == adt_path:
+                t = ty
+                break
+    if t is None:
+        return None
+    return {v["discr"]: v["name"] for v in t["variants"]}
+
+
+def match_arms(body, sw, variants=None):
+    """{label: (target, exclusive region)} for a switch block; label is the variant name (or int) or 'otherwise'."""
+    out = {}
+    for tg, lb in sw.edges():
+        if lb[0] == "case":
+            name = variants.get(lb[1], lb[1]) if variants else lb[1]
+        else:
+            name = "otherwise"
+        if body.blocks[tg].term and body.blocks[tg].term["k"] == "unreachable" and not body.blocks[tg].stmts:
+            continue
+        out[name] = (tg, exclusive_region(body, sw.idx, tg))
+    return out
+
+
+def region_calls(body, region):
+    return [body.blocks[bi] for bi in sorted(region) if body.blocks[bi].term and body.blocks[bi].term["k"] == "call"]
